@@ -53,6 +53,7 @@ type genCfg struct {
 	varBounds              bool // overdraft bounds may be arbitrary monetary expressions (front-end corpora)
 	deepInfix              bool // chains of several + / - (left-nested)
 	worldVars              bool // account variables may be valued "world"
+	monVars                bool // many monetary variables, used (and re-used) wherever a monetary is expected
 }
 
 type gen struct {
@@ -143,7 +144,7 @@ func (g *gen) expr(t string, asset string, d int) J {
 				cands = append(cands, v["name"].(string))
 			}
 		}
-		if len(cands) > 0 && r.Intn(3) == 0 {
+		if len(cands) > 0 && (r.Intn(3) == 0 || (g.cfg.monVars && r.Intn(3) != 0)) {
 			return eVar(pick(r, cands))
 		}
 		a := asset
@@ -306,9 +307,14 @@ func (g *gen) allotPortions() []J {
 	r := g.r
 	ps := pick(r, portionSets)
 	useRem := r.Intn(3) == 0
+	remAt := len(ps) - 1
+	if r.Intn(3) == 0 {
+		// `remaining` need not be written last to be executed
+		remAt = r.Intn(len(ps))
+	}
 	var out []J
 	for i, p := range ps {
-		if useRem && i == len(ps)-1 {
+		if useRem && i == remAt {
 			out = append(out, eRemaining())
 		} else {
 			out = append(out, ePortion(p[0], p[1]))
@@ -380,6 +386,9 @@ func (g *gen) declareVars(c *Case) {
 	}
 	for vi := 0; vi < nv; vi++ {
 		t := pick(r, []string{"account", "asset", "number", "monetary", "portion", "string", "account", "monetary"})
+		if cfg.monVars && r.Intn(2) == 0 {
+			t = "monetary"
+		}
 		name := fmt.Sprintf("v%c", 'a'+vi)
 		var val J
 		switch t {
@@ -577,7 +586,7 @@ func corpusCfg(name string) genCfg {
 		base.wSend, base.wSave, base.wTx, base.wAm = 6, 2, 1, 1
 		base.sendAllRate = 4
 		base.negNums = true
-		base.nums = append([]int{-4, -1}, baseNums...)
+		base.nums = append([]int{-50, -12, -4, -1}, baseNums...)
 		base.mismatchRate = 40
 		base.infix = true
 		base.origins = true
@@ -613,7 +622,7 @@ func corpusCfg(name string) genCfg {
 		base.srcDepth = 3
 		base.maxVars = 2
 		base.negNums = true
-		base.nums = append([]int{-5}, baseNums...)
+		base.nums = append([]int{-30, -5}, baseNums...)
 	case "dst": // C05: rich destination, trivial source
 		base.worldSrcOnly = true
 		base.infix = true
@@ -628,6 +637,15 @@ func corpusCfg(name string) genCfg {
 		base.sendAllRate = 4
 		base.srcDepth, base.dstDepth = 2, 2
 		base.maxVars = 2
+	case "pairvars": // C07 C09: both sides rich, amounts and caps given by (re-used) monetary variables, several statements
+		base.sendAllRate = 5
+		base.srcDepth, base.dstDepth = 2, 2
+		base.maxVars, base.maxStmts = 4, 3
+		base.wSend, base.wSave, base.wTx, base.wAm = 8, 1, 1, 0
+		base.monVars = true
+		base.infix = true
+		base.assets = []string{"USD"}
+		base.balNums = []int{0, 2, 3, 5, 10, 12, 30, 100}
 	default:
 		panic("unknown corpus " + name)
 	}
